@@ -113,6 +113,10 @@ def rejected(env, lp, npol, fault, prefix='F', cont='AP', d=1, A=2, twin=False, 
         # a first fit that passes validation but fails inside training (k-means needs n_clusters rows)
         dec, rew, ctx = gen_batch(env, 'short', cur, 1, rk, d=ctxd, fixed_n=1)
         thunk = lambda: B.fit(np.asarray(dec), rew, ctx)
+    elif fault == 'first_partial_fit.too_few_rows':
+        # the same through partial_fit, which delegates the first training call to fit
+        dec, rew, ctx = gen_batch(env, 'short', cur, 1, rk, d=ctxd, fixed_n=1)
+        thunk = lambda: B.partial_fit(np.asarray(dec), rew, ctx)
     elif fault == 'predict.before_fit':
         thunk = lambda: B.predict(env.reals('pq', (1, ctxd)) if ctxd else None)
     else:
@@ -161,7 +165,8 @@ def rejected(env, lp, npol, fault, prefix='F', cont='AP', d=1, A=2, twin=False, 
 
 
 BOUNDS = {
-    'quick': dict(faults=sorted(set(FAULTS_CF + FAULTS_CTX + ['first_fit.too_few_rows', 'predict.before_fit'])),
+    'quick': dict(faults=sorted(set(FAULTS_CF + FAULTS_CTX + ['first_fit.too_few_rows', 'first_partial_fit.too_few_rows',
+                                                            'predict.before_fit'])),
                   position='after fit (2 rows); after fit + partial_fit; before the first fit', continuation='add_arm, '
                   'partial_fit, queries', policies='UCB1, Thompson, LinUCB, LinGreedy; every neighbourhood policy over UCB1 '
                   '(+ Thompson for TreeBandit)'),
@@ -212,6 +217,9 @@ def scenarios(tier):
             out.append(Scenario('%s.%s.first_fit.too_few_rows' % (lp, npol), rejected,
                                 dict(lp=lp, npol=npol, fault='first_fit.too_few_rows', prefix='', cont='PP'), weight=100,
                                 shards=4, max_paths=60000))
+            out.append(Scenario('%s.%s.first_partial_fit.too_few_rows' % (lp, npol), rejected,
+                                dict(lp=lp, npol=npol, fault='first_partial_fit.too_few_rows', prefix='', cont='PP'),
+                                weight=100, shards=4, max_paths=60000))
     for lp in (['linucb'] if q else ['linucb', 'lingreedy', 'lints']):
         for f in ('pfit.feature_count', 'pfit.feature_count_2rows'):
             # with one feature numpy broadcasting accepts the wider batch: the rejection needs d >= 2
